@@ -9,6 +9,38 @@ From Carquet Require Import Base.Res Simd.Vec Simd.X86Sem Simd.ScalarKernels Sim
 Import ListNotations.
 Local Open Scope nat_scope.
 
+(* ------------------------------------------------------------------ element-wise views of an update *)
+
+Lemma sub_upd_same (w : nat) (out v : list N) off k :
+  off + length v <= length out -> k * w + w <= length v ->
+  sub (upd out (off) v) (off + k * w) w = sub v (k * w) w.
+Proof.
+  intros H1 H2. apply (list_eq_nth _ _ 0%N).
+  - rewrite !length_sub; [reflexivity|lia|rewrite length_upd by lia; lia].
+  - intros j Hj. rewrite length_sub in Hj by (rewrite length_upd by lia; lia).
+    rewrite !nth_sub by lia. rewrite nth_upd_in by lia. f_equal. lia.
+Qed.
+
+Lemma sub_upd_other (w : nat) (out v : list N) off k :
+  off + length v <= length out -> k * w + w <= off ->
+  sub (upd out off v) (k * w) w = sub out (k * w) w.
+Proof.
+  intros H1 H2. apply (list_eq_nth _ _ 0%N).
+  - rewrite !length_sub; [reflexivity|lia|rewrite length_upd by lia; lia].
+  - intros j Hj. rewrite length_sub in Hj by (rewrite length_upd by lia; lia).
+    rewrite !nth_sub by lia. rewrite nth_upd_out by lia. reflexivity.
+Qed.
+
+Lemma sub_upd_after (w : nat) (out v : list N) off k :
+  off + length v <= length out -> off + length v <= k * w -> k * w + w <= length out ->
+  sub (upd out off v) (k * w) w = sub out (k * w) w.
+Proof.
+  intros H1 H2 H3. apply (list_eq_nth _ _ 0%N).
+  - rewrite !length_sub; [reflexivity|lia|rewrite length_upd by lia; lia].
+  - intros j Hj. rewrite length_sub in Hj by (rewrite length_upd by lia; lia).
+    rewrite !nth_sub by lia. rewrite nth_upd_out by lia. reflexivity.
+Qed.
+
 Section Seq.
 Variables (w count : nat) (elem : nat -> list N).
 Hypothesis Helem : forall i, i < count -> length (elem i) = w.
@@ -37,25 +69,8 @@ Proof.
     rewrite IH by lia. f_equal. lia.
 Qed.
 
-Lemma sub_upd_same (out v : list N) off k :
-  off + length v <= length out -> k * w + w <= length v ->
-  sub (upd out (off) v) (off + k * w) w = sub v (k * w) w.
-Proof.
-  intros H1 H2. apply (list_eq_nth _ _ 0%N).
-  - rewrite !length_sub; [reflexivity|lia|rewrite length_upd by lia; lia].
-  - intros j Hj. rewrite length_sub in Hj by (rewrite length_upd by lia; lia).
-    rewrite !nth_sub by lia. rewrite nth_upd_in by lia. f_equal. lia.
-Qed.
 
-Lemma sub_upd_other (out v : list N) off k :
-  off + length v <= length out -> k * w + w <= off ->
-  sub (upd out off v) (k * w) w = sub out (k * w) w.
-Proof.
-  intros H1 H2. apply (list_eq_nth _ _ 0%N).
-  - rewrite !length_sub; [reflexivity|lia|rewrite length_upd by lia; lia].
-  - intros j Hj. rewrite length_sub in Hj by (rewrite length_upd by lia; lia).
-    rewrite !nth_sub by lia. rewrite nth_upd_out by lia. reflexivity.
-Qed.
+
 
 (** storing W consecutive elements at i*w advances the invariant by W *)
 Lemma Pseq_block i W out :
